@@ -22,12 +22,23 @@
    pre-existing EMPTY blocks (the base image of the replay harness), the modelled blocks follow.
 
    One action = one public call of blockchain.Blockchain (Store, RevertHead, a complete paged event
-   query, a process restart with or without the graceful-stop snapshot).  Lazy initialisation of
-   the running filter is a function of the on-disk state, which only changes through calls that
-   initialise first, so it is modelled eagerly at Restart.
+   query, a process restart with or without the graceful-stop snapshot).  The running filter is
+   initialised lazily by the first call that touches it (ensureInit); that matters because the
+   initialisation has disk effects (a same-window fill that reaches the end of the window persists
+   it; the repaired code deletes the snapshot it has read), so it is modelled where it happens.
 
    `act` / `res` are output-only variables (the call and what it returned); `cause` is a ghost
-   used only to name the cause of a false negative. *)
+   used only to name the cause of a false negative.
+
+   Defect switches (FALSE = juno before the fix, TRUE = repaired; all three fixes are in /repo):
+     InvalidateCacheOnReorg   d89ef18  H1   stale LRU entry after a reorg across a window boundary
+     SnapshotConsumedOnLoad   46dad12  H2   stale shutdown snapshot resumed after reorg + crash
+     DropReopenedWindow       7dda82e  H19  persisted filter of a re-opened window left on disk:
+                                            after a crash the rebuild anchors on it, the running
+                                            window starts above the head, Store is refused and
+                                            queries are answered from the stale window
+   checks/C09.py decides the switch values per run by replaying the minimal counterexample of each
+   faithful switch on the real code. *)
 EXTENDS Integers, Sequences, FiniteSets, TLC
 
 CONSTANTS W,            \* blocks per aggregated filter window (real: core.NumBlocksPerFilter = 8192)
@@ -40,7 +51,7 @@ CONSTANTS W,            \* blocks per aggregated filter window (real: core.NumBl
           Limits,       \* set of scan limits (0 = unlimited)
           RangeSlack,   \* queries use from/to in (Base - RangeSlack)..(Height + RangeSlack) and from = 0;
                         \* negative: only the full range
-          \* ---- defect switches: FALSE = the code as it is, TRUE = the repaired design
+          \* ---- defect switches: FALSE = the code before the fix, TRUE = the repaired design
           InvalidateCacheOnReorg,  \* H1: RevertHead drops the cached persisted windows
           SnapshotConsumedOnLoad,  \* H2: the shutdown snapshot is deleted as soon as an initialisation
                                    \*     has read it (only the start right after the graceful stop uses it)
